@@ -124,7 +124,8 @@ def strat_hist(tier):
     return st.builds(lambda pr, me, num, integ, t0, cfl, ts, stp, dtl, rst, ts2, stp2, reuse, u: dict(
         _pr(pr, integ), mesh=cases.scale_mesh(me, u), num=num, t0=t0 * u, cfl=cfl, tsave=ts, stop=stp, dtlocal=dtl, restart=rst, tsave2=ts2, stop2=stp2, reuse=reuse, unit=u),
         _problem(), _mesh(), _num(), st.sampled_from(ex + im), st.one_of(st.just(0.0), gen.sfloat(-1, 2)), gen.f(0.05, 0.9), _rel_times(), _stop(), st.booleans(), st.booleans(), _rel_times(), _stop(),
-        st.sampled_from(["none", "none", "stop", "tsave", "both"]), _unit())
+        st.sampled_from(["none", "none", "stop", "tsave", "both"]), _unit()).flatmap(
+        lambda c: st.builds(lambda c2: dict(c, cfl2=c2), st.one_of(st.none(), st.none(), gen.f(0.05, 0.9))))
 
 
 class Trajectory(object):
@@ -371,7 +372,8 @@ def check_hist(case):
             # model): the reference continues from a shallow copy of it (with its own step log)
             refsolver = copy.copy(solver)
             refsolver._vf_log = []
-            traj2 = Trajectory(P, case["integ"], case["cfl"], f1, case["dtlocal"], prev_solver=refsolver)
+            case2 = dict(case, cfl=case.get("cfl2") or case["cfl"])        # the continuation may ask for another CFL number
+            traj2 = Trajectory(P, case["integ"], case2["cfl"], f1, case["dtlocal"], prev_solver=refsolver)
             traj2.extend(2)
             if all(sim.admissible(P.smd, s.data) for s in traj2.states):
                 reuse = case.get("reuse", "none")
@@ -386,8 +388,10 @@ def check_hist(case):
                 else:
                     stop2, eff2 = _stop_dict(traj2, case["stop2"], tsave2)
                 call2 = dict(name="restart", solver=solver)
-                _judge(P, case, traj2, f1, tsave2, stop2, eff2, call2, restart_it=max(f1.it, 0), tsave_obj=(tsave_obj if reuse in ("tsave", "both") else None))
+                _judge(P, case2, traj2, f1, tsave2, stop2, eff2, call2, restart_it=max(f1.it, 0), tsave_obj=(tsave_obj if reuse in ("tsave", "both") else None))
                 labels.append("restart")
+                if case2["cfl"] != case["cfl"]:
+                    labels.append("restart-with-another-cfl")
                 labels.append("restart-reuse:" + reuse)
     return dict(nontrivial=nontrivial, labels=labels)
 
